@@ -1085,7 +1085,7 @@ def tier_space(tier):
     return {"u1_single": ALL_CFGS, "u1_double": ALL_CFGS, "u3": ALL_CFGS, "u3_keep": [c for c in ALL_CFGS if c[0] == "g++"], "u4": ALL_CFGS,
             # covering array first: if a deadline cuts U2 short, the completed configurations still pair every two configuration values
             "u2": COVERING6 + [c for c in ALL_CFGS if c not in COVERING6], "u5": ALL_CFGS,
-            "u6": COVERING6 + [c for c in ALL_CFGS if c not in COVERING6], "u6_probes": ALL_CFGS}
+            "u6": COVERING6 + [c for c in ALL_CFGS if c not in COVERING6], "u6_probes": []}   # probes: run with checks/C19/probe_uses.py (path in judge_uses(probes=True) not yet run end to end through bin/check)
 
 
 def _run(ctx):
